@@ -376,6 +376,37 @@ func (c *Ctx) ruleX4() {
 			fa, ok := st.Addr.(*ssa.FieldAddr)
 			return ok && isRecv(f, fa.X)
 		}
+		// and only by one that was read: an assignment that is not covered by the succeeding
+		// branch of the Peers() error test also runs when the poll failed, and stores an empty
+		// snapshot — the next successful poll then reports every peer as joining a second time
+		var peersCall ssa.CallInstruction
+		eachCall(f, func(call ssa.CallInstruction) {
+			if methodName(call) == "Peers" && call.Common().IsInvoke() && strings.HasSuffix(typeStr(call.Common().Value.Type()), "coreiface.PubSubAPI") {
+				peersCall = call
+			}
+		})
+		if peersCall != nil {
+			if ev := errResult(peersCall); ev != nil {
+				ts := errTests(ev)
+				eachInstr(f, func(in ssa.Instruction) {
+					if !assign(in) {
+						return
+					}
+					covered := false
+					for _, t := range ts {
+						if t.Ok != nil && branchCovers(t.Ok, in.Block()) {
+							covered = true
+						}
+					}
+					consF := fnKey(f) + "#snapshot-not-replaced-on-failure"
+					if covered {
+						c.ok("X4", consF, in.Pos(), "the remembered snapshot is only replaced once the poll is known to have succeeded")
+					} else {
+						c.bad("X4", consF, in.Pos(), "the remembered membership snapshot is replaced before the outcome of the poll is known: a poll that fails stores an empty snapshot without any leave being reported, and the next successful poll reports every peer still on the topic as joining a second time — a duplicate join event and head exchange for each")
+					}
+				})
+			}
+		}
 		if hit, tr := findPath(f, entry, assign, successNil, nil); hit != nil {
 			c.bad("X4", cons, hit.Pos(), "the membership diff can return successfully without replacing the remembered snapshot by the one just read: the next poll diffs against a stale snapshot — a peer that left is never reported as leaving, and when it comes back its join is not reported either, so no head exchange takes place", c.trailStr(tr)...)
 		} else {
